@@ -341,13 +341,6 @@ func (t *c07Tr) cond(e ast.Expr) (string, error) {
 	return "", t.errf("condition %s is outside the translated fragment", types.ExprString(e))
 }
 
-
-// cond with the left operand of a conjunction looked up as a whole first: in a && b && c (parsed (a && b) && c) the
-// pair a && b may be an entry of the bools table
-func (t *c07Tr) condLeftAssoc(e ast.Expr) (string, error) {
-	return t.cond(e)
-}
-
 // the value of the piece when control reaches its end / a continue
 func (t *c07Tr) endValue() (string, error) {
 	switch t.kind {
@@ -616,7 +609,7 @@ func (t *c07Tr) stmts(l []ast.Stmt, ind string, depth int) (string, error) {
 				var cs []string
 				var cerr error
 				for _, ce := range conds {
-					c, err := t.condLeftAssoc(ce)
+					c, err := t.cond(ce) // (a && b) && c: the pair a && b is looked up in the bools table as a whole
 					if err != nil {
 						cerr = err
 						break
@@ -1212,6 +1205,7 @@ func c07ExtractAddEdge(repo string) (string, string, error) {
 	if pn := c07ParamNames(fn); pn != "startNode:string,endNode:string,noControl:bool,noData:bool,mappings:...*FieldMapping" {
 		return "", "", fmt.Errorf("graph.addEdgeWithMappings: parameters (%s)", pn)
 	}
+	c07InlineMembership(f, fn.Body)
 	t := c07NewTr("graph.addEdgeWithMappings", "ares")
 	t.keys["startNode"] = "startNode"
 	t.keys["endNode"] = "endNode"
@@ -1228,6 +1222,84 @@ func c07ExtractAddEdge(repo string) (string, string, error) {
 	b.WriteString(c07Imports + "\nDefinition tie_available : bool := true.\n\n")
 	b.WriteString("Definition add_edge (upd : xstate -> option xstate) (xs : xstate) (startNode endNode : key) (noControl noData : bool) : ares :=\n  " + code + ".\n")
 	return "AddEdgeCode.v", b.String(), nil
+}
+
+// c07InlineMembership: a private function of the file of the shape
+//
+//	func f(keys []string, key string) bool { for _, k := range keys { if k == key { return true } }; return false }
+//
+// called as the whole condition of an if statement without init / else, `if f(A, B) { S }`, is written back as the loop
+// `for i := range A { if A[i] == B { S } }` it stands for (round 6: a duplicate scan extracted into a helper), provided S
+// ends in a return (so that the loop form, which would run S once per match, and the call form agree)
+func c07InlineMembership(f *ast.File, body *ast.BlockStmt) {
+	member := map[string]bool{}
+	for _, d := range f.Decls {
+		fd, ok := d.(*ast.FuncDecl)
+		if !ok || fd.Recv != nil || fd.Body == nil || len(fd.Body.List) != 2 || fd.Type.Results == nil || len(fd.Type.Results.List) != 1 || c07sq(fd.Type.Results.List[0].Type) != "bool" {
+			continue
+		}
+		var ps []string
+		for _, p := range fd.Type.Params.List {
+			for _, n := range p.Names {
+				ps = append(ps, n.Name+":"+c07sq(p.Type))
+			}
+		}
+		if len(ps) != 2 || !strings.HasSuffix(ps[0], ":[]string") || !strings.HasSuffix(ps[1], ":string") {
+			continue
+		}
+		keys, key := strings.TrimSuffix(ps[0], ":[]string"), strings.TrimSuffix(ps[1], ":string")
+		rs, ok1 := fd.Body.List[0].(*ast.RangeStmt)
+		ret, ok2 := fd.Body.List[1].(*ast.ReturnStmt)
+		if !ok1 || !ok2 || len(ret.Results) != 1 || c07sq(ret.Results[0]) != "false" {
+			continue
+		}
+		if c07sq(rs.X) != keys || rs.Key == nil || c07sq(rs.Key) != "_" || rs.Value == nil || len(rs.Body.List) != 1 {
+			continue
+		}
+		is, ok := rs.Body.List[0].(*ast.IfStmt)
+		if !ok || is.Init != nil || is.Else != nil || len(is.Body.List) != 1 {
+			continue
+		}
+		v := c07sq(rs.Value)
+		if c := c07sq(is.Cond); c != v+"=="+key && c != key+"=="+v {
+			continue
+		}
+		if r, ok := is.Body.List[0].(*ast.ReturnStmt); !ok || len(r.Results) != 1 || c07sq(r.Results[0]) != "true" {
+			continue
+		}
+		member[fd.Name.Name] = true
+	}
+	if len(member) == 0 {
+		return
+	}
+	ast.Inspect(body, func(n ast.Node) bool {
+		blk, ok := n.(*ast.BlockStmt)
+		if !ok {
+			return true
+		}
+		for i, st := range blk.List {
+			is, ok := st.(*ast.IfStmt)
+			if !ok || is.Init != nil || is.Else != nil || len(is.Body.List) == 0 {
+				continue
+			}
+			call, ok := is.Cond.(*ast.CallExpr)
+			if !ok || len(call.Args) != 2 {
+				continue
+			}
+			id, ok := call.Fun.(*ast.Ident)
+			if !ok || !member[id.Name] {
+				continue
+			}
+			if _, ok := is.Body.List[len(is.Body.List)-1].(*ast.ReturnStmt); !ok {
+				continue
+			}
+			iv := ast.NewIdent("i")
+			blk.List[i] = &ast.RangeStmt{Key: iv, Tok: token.DEFINE, X: call.Args[0], Body: &ast.BlockStmt{List: []ast.Stmt{
+				&ast.IfStmt{Cond: &ast.BinaryExpr{X: &ast.IndexExpr{X: call.Args[0], Index: iv}, Op: token.EQL, Y: call.Args[1]}, Body: is.Body},
+			}}}
+		}
+		return true
+	})
 }
 
 // ---------------------------------------------------------------------------------------------- c07_nodetype
